@@ -95,6 +95,8 @@ class Ctx:
         self.repo = repo
         self.tracer = Tracer(facts)
         self.cache = {}
+        from . import bits as _bits
+        _bits.set_facts(facts)
 
 
 def load_known():
